@@ -154,6 +154,7 @@ fn scenario(c: &C03Case, reg: Arc<Mutex<Registry>>, totals: Arc<(AtomicU64, Atom
     });
     let plan = c.consume.clone();
     let (r2, t2) = (reg.clone(), totals.clone());
+    let tag_every_c = tag_every;
     let consumer = spawn("consumer", move || {
         let mut consumed: u64 = 0;
         let mut pi = 0usize;
@@ -204,6 +205,28 @@ fn scenario(c: &C03Case, reg: Arc<Mutex<Registry>>, totals: Arc<(AtomicU64, Atom
             // a plan that never consumes would never finish: every third round takes everything
             // ... and a plan that crawls switches to taking everything after a while
             let k = if never || rounds > 1500 || (k == 0 && rounds % 3 == 0) { rb.len() } else { k };
+            // completeness: over the part that is consumed now, exactly the tags the producer
+            // attached (one "i" tag on every tag_every-th sample), each once.  (Tags of the part
+            // left in the stream are reported again with the next window.)
+            {
+                let mut got: Vec<u64> = tags.iter().filter(|t| t.pos() < k).map(|t| consumed + t.pos() as u64).collect();
+                got.sort_unstable();
+                let want: Vec<u64> = if tag_every_c > 0 { (consumed..consumed + k as u64).filter(|a| a % tag_every_c == 0).collect() } else { Vec::new() };
+                if got != want {
+                    let missing = want.iter().filter(|a| !got.contains(a)).count();
+                    r2.lock().unwrap().fails.push((
+                        if missing > 0 { "C03/tags/lost".to_string() } else { "C03/tags/duplicated-or-extra".to_string() },
+                        format!(
+                            "samples {consumed}..{} are being consumed: tags reported on {:?}, the producer tagged {:?}",
+                            consumed + k as u64,
+                            &got[..got.len().min(8)],
+                            &want[..want.len().min(8)]
+                        ),
+                    ));
+                    r2.lock().unwrap().close(false);
+                    return;
+                }
+            }
             r2.lock().unwrap().close(false);
             rb.consume(k);
             consumed += k as u64;
@@ -271,7 +294,7 @@ impl Prop for C03 {
         }
     }
     fn rule(&self) -> String {
-        "generated: stream size (1-2 pages of u32), producer plan [(fill k, commit n<=k)], consumer plan [(need, consume m)], tag density, and a scheduler decision stream; producer and consumer are harness tasks using only the public stream API (free, wait, write_buf, produce, read_buf, consume, eof) with extra scheduling points while a window is being filled/read. One case = one execution on the shuttle runtime through the verif sync shim. Oracle (history invariant): every read window shows exactly the next committed values (nothing torn, stale, duplicated, skipped), tags sit on their samples, totals match after the producer left; every window acquisition is checked against all live windows of the other side for disjointness in ring coordinates (pointer -> ring offset). Thorough adds a real-thread run (std primitives, two OS threads, millions of samples through a 1-page stream). Non-trivial: >= 2 window acquisitions while a window of the other side was live, and the stream wrapped; distinct = hash of (scenario, decisions).".into()
+        "generated: stream size (1-2 pages of u32), producer plan [(fill k, commit n<=k)], consumer plan [(need, consume m)], tag density, and a scheduler decision stream; producer and consumer are harness tasks using only the public stream API (free, wait, write_buf, produce, read_buf, consume, eof) with extra scheduling points while a window is being filled/read. One case = one execution on the shuttle runtime through the verif sync shim. Oracle (history invariant): every read window shows exactly the next committed values (nothing torn, stale, duplicated, skipped), tags sit on their samples and, over every consumed stretch, are exactly the producer's (none lost, none twice), totals match after the producer left; every window acquisition is checked against all live windows of the other side for disjointness in ring coordinates (pointer -> ring offset). Thorough adds a real-thread run (std primitives, two OS threads, millions of samples through a 1-page stream). Non-trivial: >= 2 window acquisitions while a window of the other side was live, and the stream wrapped; distinct = hash of (scenario, decisions).".into()
     }
     fn assumptions(&self) -> Vec<String> {
         vec![
